@@ -35,6 +35,8 @@ func (r *Run) doCtlExtra(sc *plan.Script, op *plan.Op, rec *plan.Rec) bool {
 	switch op.K {
 	case "ctl.snapshot":
 		rec.Snap = r.Snapshot(op.Flag)
+	case "ctl.rawscan":
+		r.rawScan(op, rec)
 	case "ctl.cut_backups":
 		r.cutBackups(op, rec)
 	case "ctl.heal_all":
@@ -256,4 +258,74 @@ func (r *Run) healAll() {
 		}
 	}
 	r.K.Count("fault.heal", 1)
+}
+
+// rawScan walks every partition with raw DM.SCAN cursors on its primary owner (or, with
+// Flag, on its current backup owner) and returns the keys in rec.Keys.
+func (r *Run) rawScan(op *plan.Op, rec *plan.Rec) {
+	dmn := op.DM
+	if dmn == "" {
+		dmn = r.P.DMap
+	}
+	run := r.C.Running()
+	rt := run[0].DB.VerifLocalRouting()
+	ctx := context.Background()
+	for part := uint64(0); part < r.partitions(); part++ {
+		route := rt[part]
+		owners := route.PrimaryOwners
+		if op.Flag {
+			owners = route.ReplicaOwners
+		}
+		if len(owners) == 0 {
+			continue
+		}
+		rdb := r.ctlRaw(clusterIdx(owners[len(owners)-1]))
+		cursor := "0"
+		for i := 0; ; i++ {
+			args := []any{"DM.SCAN", part, dmn, cursor}
+			if op.Pattern != "" {
+				args = append(args, "MATCH", op.Pattern)
+			}
+			if op.Count > 0 {
+				args = append(args, "COUNT", op.Count)
+			}
+			if op.Flag {
+				args = append(args, "RC")
+			}
+			res, err := rdb.Do(ctx, args...).Result()
+			if err != nil {
+				rec.Err = Classify(err)
+				return
+			}
+			arr, ok := res.([]interface{})
+			if !ok || len(arr) != 2 {
+				rec.Err = "other:bad scan reply"
+				return
+			}
+			cursor = fmtAny(arr[0])
+			if ks, ok := arr[1].([]interface{}); ok {
+				for _, k := range ks {
+					rec.Keys = append(rec.Keys, fmtAny(k))
+				}
+			}
+			if cursor == "0" {
+				break
+			}
+			if i > 20000 {
+				rec.Err = "other:scan did not terminate"
+				return
+			}
+		}
+	}
+	rec.N = len(rec.Keys)
+}
+
+func fmtAny(v interface{}) string {
+	switch x := v.(type) {
+	case string:
+		return x
+	case int64:
+		return strconv.FormatInt(x, 10)
+	}
+	return ""
 }
